@@ -23,7 +23,10 @@ def _custom_quadrature_signature(elements) -> str:
     """Compute an exact signature of the custom quadrature rules of elements.
 
     UFL sees an element through its repr, where the points and weights of a
-    quadrature element are rounded and, for long arrays, elided.
+    quadrature element are rounded and, for long arrays, elided. The rules are
+    listed in the order of the elements (UFL's ordering of the arguments and
+    coefficients, as in its own signatures): which function has which rule
+    is part of the signature.
     """
     signatures = []
     for element in ufl.algorithms.analysis.extract_sub_elements(elements):
@@ -34,7 +37,7 @@ def _custom_quadrature_signature(elements) -> str:
                 rule.update(str(_array.shape).encode("utf-8"))
                 rule.update(_array.tobytes())
             signatures.append(rule.hexdigest())
-    return "".join(sorted(signatures))
+    return "".join(signatures)
 
 
 def compute_signature(
